@@ -170,7 +170,12 @@ pub fn gen_c15(rng: &mut Rng, tier: Tier) -> C15Plan {
     let (mut fl, w2, h2) = flavour_for(rng, &cfg, w, h);
     w = w2;
     h = h2;
-    let n = 1 + rng.usize(6);
+    // one stream in 100 is LONG: dozens of pictures and kilobytes through one reader
+    let long = rng.chance(1, 100);
+    let n = if long { 20 + rng.usize(60) } else { 1 + rng.usize(6) };
+    if long {
+        cfg.pei16 = 12;
+    }
     let mut pics = Vec::new();
     let mut tr = rng.byte();
     let mut has_ref = false;
